@@ -41,51 +41,57 @@ example : f32.isFinite 1 = true ∧ PeakExact.wrF32 1 = 1 ∧ PeakExact.wrF32 2 
     PeakExact.wrF32 0x007FFFFF = 0x007FFFFF ∧ PeakExact.wrF32 0x00800000 = 0x00800000 ∧ PeakExact.wrF32 0x3F800000 = 0x3F800000 ∧
     PeakExact.wrF32 0 = 0 ∧ u32 false (PeakExact.wrF32 2) = [2, 0, 0, 0] := by decide +kernel
 
-/-- the rule before the repair (`Sf.wrF32`, the writers' early return on `fabs (in) < FLT_MIN`): a maximum whose binary32 is
+/-- the rule before the repair (`Sf.wrF32TinyOld`, the writers' early return on `fabs (in) < FLT_MIN`): a maximum whose binary32 is
     subnormal was stored as 0.0f; everything else as itself -/
 theorem peak_field_old_rule (b : Nat) :
-    (b % 2 ^ 31 < 0x00800000 → Sf.wrF32 b = 0) ∧ (0x00800000 ≤ b % 2 ^ 31 → Sf.wrF32 b = b) ∧
-    Sf.wrF32 2 = 0 ∧ Sf.wrF32 0x00400000 = 0 ∧ Sf.wrF32 0x007FFFFF = 0 ∧ Sf.wrF32 0x00800000 = 0x00800000 := by
-  refine ⟨fun h => by unfold Sf.wrF32; rw [if_pos h], fun h => ?_, by decide, by decide, by decide, by decide⟩
+    (b % 2 ^ 31 < 0x00800000 → Sf.wrF32TinyOld b = 0) ∧ (0x00800000 ≤ b % 2 ^ 31 → Sf.wrF32TinyOld b = b) ∧
+    Sf.wrF32TinyOld 2 = 0 ∧ Sf.wrF32TinyOld 0x00400000 = 0 ∧ Sf.wrF32TinyOld 0x007FFFFF = 0 ∧ Sf.wrF32TinyOld 0x00800000 = 0x00800000 := by
+  refine ⟨fun h => by unfold Sf.wrF32TinyOld; rw [if_pos h], fun h => ?_, by decide, by decide, by decide, by decide⟩
   have : ¬ b % 2 ^ 31 < 0x00800000 := by omega
-  unfold Sf.wrF32; rw [if_neg this]
+  unfold Sf.wrF32TinyOld; rw [if_neg this]
 
 /-- the full-strength statement about the old field … -/
-def peak_field_old_rule_full : Prop := ∀ b, b < 2 ^ 32 → f32.isFinite b = true → Sf.wrF32 b = b
+def peak_field_old_rule_full : Prop := ∀ b, b < 2 ^ 32 → f32.isFinite b = true → Sf.wrF32TinyOld b = b
 /-- … was false (2^-148, the witness of KF-C18-PEAK-SUBNORMAL) -/
 theorem peak_field_old_rule_fails : ¬ peak_field_old_rule_full := by
   intro h
   have := h 2 (by decide) (by decide)
   revert this; decide
 
-/-- where the two rules agree: a finite non-negative pattern that is zero or normal -/
-theorem field_agrees_old_rule (b : Nat) (hb : b < 2 ^ 31) (hfin : f32.isFinite b = true) (hn : b = 0 ∨ 0x00800000 ≤ b) :
+/-- the handle model's PEAK field (`Sf.wrF32`, SfModel/Handle.lean — the identity since the model follows 71c426d) and the
+    repaired writers agree on every finite pattern: the handle model's header images are those of the repaired library,
+    subnormal maxima included -/
+theorem field_agrees (b : Nat) (hb : b < 2 ^ 32) (hfin : f32.isFinite b = true) :
     PeakExact.wrF32 b = Sf.wrF32 b := by
+  rw [peak_field_exact b hb hfin]; rfl
+
+/-- where the FLT_MIN rule agreed with the repaired one: a finite non-negative pattern that is zero or normal -/
+theorem field_agrees_old_rule (b : Nat) (hb : b < 2 ^ 31) (hfin : f32.isFinite b = true) (hn : b = 0 ∨ 0x00800000 ≤ b) :
+    PeakExact.wrF32 b = Sf.wrF32TinyOld b := by
   rw [peak_field_exact b (by omega) hfin]
   rcases hn with rfl | h
   · rfl
   · have : ¬ b % 2 ^ 31 < 0x00800000 := by rw [Nat.mod_eq_of_lt hb]; omega
-    unfold Sf.wrF32; rw [if_neg this]
+    unfold Sf.wrF32TinyOld; rw [if_neg this]
 
-/-- a PEAK list without a subnormal maximum (binary32 of each value: finite, sign clear, zero or normal) gives the very chunk
-    of `Sf.Peak.chunkBytes`, in every container -/
-theorem chunk_agrees_old_rule (k : Kind) (ch : Nat) (ps : List Peak)
-    (h : ∀ p ∈ ps, f64to32 p.value < 2 ^ 31 ∧ f32.isFinite (f64to32 p.value) = true ∧
-      (f64to32 p.value = 0 ∨ 0x00800000 ≤ f64to32 p.value)) :
+/-- a PEAK list of finite values gives the very chunk of `Sf.Peak.chunkBytes` (the chunk the handle / PEAK models and their
+    theorems are stated with), in every container -/
+theorem chunk_agrees (k : Kind) (ch : Nat) (ps : List Peak)
+    (h : ∀ p ∈ ps, f64to32 p.value < 2 ^ 32 ∧ f32.isFinite (f64to32 p.value) = true) :
     PeakExact.chunkBytes k ch ps = Peak.chunkBytes k ch ps := by
   have e32 : ∀ big : Bool, (ps.flatMap fun p => u32 big (PeakExact.wrF32 (f64to32 p.value)) ++ u32 big p.position) =
       (ps.flatMap fun p => u32 big (Sf.wrF32 (f64to32 p.value)) ++ u32 big p.position) := by
     intro big
     apply List.flatMap_congr
     intro p hp
-    obtain ⟨h1, h2, h3⟩ := h p hp
-    rw [field_agrees_old_rule _ h1 h2 h3]
+    obtain ⟨h1, h2⟩ := h p hp
+    rw [field_agrees _ h1 h2]
   have e64 : (ps.flatMap fun p => u32 true (PeakExact.wrF32 (f64to32 p.value)) ++ u64be p.position) =
       (ps.flatMap fun p => u32 true (Sf.wrF32 (f64to32 p.value)) ++ u64be p.position) := by
     apply List.flatMap_congr
     intro p hp
-    obtain ⟨h1, h2, h3⟩ := h p hp
-    rw [field_agrees_old_rule _ h1 h2 h3]
+    obtain ⟨h1, h2⟩ := h p hp
+    rw [field_agrees _ h1 h2]
   cases k <;> simp only [PeakExact.chunkBytes, Peak.chunkBytes, e32, e64]
 
 /-- what a WAV / AIFF chunk entry holds of a PEAK record under the repaired rule: the binary32 of the value, the low 32 bits
@@ -167,12 +173,12 @@ theorem peak_chunk_roundtrip_exact (k : Kind) (hk : k ≠ .caf) (ch : Nat) (ps :
     simp only [parseChunk, h1', h2', bne_self_eq_false, Bool.false_eq_true, if_false]
 
 /-- non-vacuity and the witness of KF-C18-PEAK-SUBNORMAL on both rules: a channel whose maximum is 2^-148 (binary64
-    0x36B0000000000000) at frame 1 — the repaired chunk holds 00000002 and re-opens as 2^-148, the old chunk held 00000000 -/
+    0x36B0000000000000) at frame 1 — the repaired chunk (and, since it follows the repair, the handle model's) holds 00000002 and re-opens as 2^-148; the FLT_MIN rule stored 00000000 -/
 example : f64to32 0x36B0000000000000 = 2 ∧
     parseChunk .wavLE 1 (PeakExact.chunkBytes .wavLE 1 [{ value := 0x36B0000000000000, position := 1 }]) =
       some [{ value := 0x36B0000000000000, position := 1 }] ∧
     parseChunk .wavLE 1 (Peak.chunkBytes .wavLE 1 [{ value := 0x36B0000000000000, position := 1 }]) =
-      some [{ value := 0, position := 1 }] ∧
+      some [{ value := 0x36B0000000000000, position := 1 }] ∧ Sf.wrF32TinyOld 2 = 0 ∧
     parseChunk .aiff 1 (PeakExact.chunkBytes .aiff 1 [{ value := 0x36B0000000000000, position := 1 }]) =
       some [{ value := 0x36B0000000000000, position := 1 }] := by decide +kernel
 
